@@ -114,6 +114,13 @@ func b2i(b bool) int {
 }
 
 type target struct {
+	// results handed out earlier must not change under the caller's feet: the slices returned by CanonicalChain and
+	// Search are kept together with a copy of their content and compared again after every later call
+	heldChain     []forkchoice.ExtendedNodeRef
+	heldChainCopy []forkchoice.ExtendedNodeRef
+	heldRefs      [][]forkchoice.NodeRef
+	heldRefsCopy  [][]forkchoice.NodeRef
+	unstable      string
 	fc       forkchoice.Forkchoice
 	arr      *proto.ProtoArray
 	spec     *common.Spec
@@ -269,6 +276,29 @@ func (t *target) observe(op *Op) {
 	op.Obs = obs
 }
 
+// stable reports whether the results handed out earlier still hold what they held when they were returned.
+func (t *target) stable() (bool, string) {
+	if len(t.heldChain) != len(t.heldChainCopy) {
+		return false, "CanonicalChain result changed length"
+	}
+	for i := range t.heldChain {
+		if t.heldChain[i] != t.heldChainCopy[i] {
+			return false, fmt.Sprintf("CanonicalChain result entry %d changed after a later call", i)
+		}
+	}
+	for k := range t.heldRefs {
+		if len(t.heldRefs[k]) != len(t.heldRefsCopy[k]) {
+			return false, "Search result changed length"
+		}
+		for i := range t.heldRefs[k] {
+			if t.heldRefs[k][i] != t.heldRefsCopy[k][i] {
+				return false, fmt.Sprintf("Search result entry %d changed after a later call", i)
+			}
+		}
+	}
+	return true, ""
+}
+
 func (t *target) exec(op *Op) {
 	op.Pruned = [][]int{}
 	var fn func()
@@ -321,6 +351,13 @@ func (t *target) exec(op *Op) {
 		case "CanonicalChain":
 			fn = func() {
 				ch, err := t.fc.CanonicalChain(mkRoot(op.Anchor), common.Slot(op.Slot))
+				if ok, why := t.stable(); !ok && t.unstable == "" {
+					t.unstable = why // the earlier result changed while this call ran
+				}
+				if err == nil {
+					t.heldChain = ch
+					t.heldChainCopy = append([]forkchoice.ExtendedNodeRef(nil), ch...)
+				}
 				r := &Ret{Ok: b2i(err == nil), Chain: [][]int{}}
 				if err == nil {
 					for _, e := range ch {
@@ -363,7 +400,12 @@ func (t *target) exec(op *Op) {
 				}
 				non, canon, err := t.fc.Search(forkchoice.NodeRef{Root: mkRoot(op.Anchor), Slot: common.Slot(op.Slot)}, pr, sl)
 				r := &Ret{Ok: b2i(err == nil), Canon: [][]int{}, Non: [][]int{}}
+				if ok, why := t.stable(); !ok && t.unstable == "" {
+					t.unstable = why
+				}
 				if err == nil {
+					t.heldRefs = [][]forkchoice.NodeRef{canon, non}
+					t.heldRefsCopy = [][]forkchoice.NodeRef{append([]forkchoice.NodeRef(nil), canon...), append([]forkchoice.NodeRef(nil), non...)}
 					r.Canon = refs(canon)
 					r.Non = refs(non)
 				}
@@ -525,6 +567,21 @@ func execAll(in, out string) error {
 		b, _ := json.Marshal(&op)
 		w.Write(b)
 		w.WriteByte('\n')
+		if t != nil && !t.dead && op.Ev != "Init" {
+			ok, why := t.stable()
+			if t.unstable != "" {
+				ok, why = false, t.unstable
+				t.unstable = ""
+			}
+			if !ok {
+				st := Op{Ev: "Query", H: op.H, Q: "ResultStable", Out: "ok", Ret: &Ret{Ok: 0}, Detail: why}
+				normalize(&st)
+				sb, _ := json.Marshal(&st)
+				w.Write(sb)
+				w.WriteByte('\n')
+				t.heldChain, t.heldChainCopy, t.heldRefs, t.heldRefsCopy = nil, nil, nil, nil
+			}
+		}
 	}
 	return sc.Err()
 }
